@@ -142,7 +142,21 @@ def _build(cfg):
     cfg = dict(cfg, kT=_num(cfg['kT'], ns), rho={t: _num(v, ns) for t, v in cfg['rho'].items()},
                diam={t: _num(v, ns) for t, v in cfg['diam'].items()})
     s = pyPRISM.System(T, kT=cfg['kT'])
-    s.domain = pyPRISM.Domain(length=cfg['length'], dr=cfg['dr'])
+    # the same grid, reached the ways users reach it: directly, from dk, or through the setters of an existing Domain
+    idiom = cfg.get('domain_idiom', 'direct')
+    n, dr = cfg['length'], cfg['dr']
+    if idiom == 'setter':
+        s.domain = pyPRISM.Domain(length=n, dr=dr * 1.25)
+        s.domain.dr = dr
+    elif idiom == 'dk':
+        import math
+        s.domain = pyPRISM.Domain(length=n, dk=math.pi / (dr * n))
+        s.domain.dr = dr                 # (re-assert the spacing exactly: pi/(pi/(dr n) n) may differ from dr in the last bit)
+    elif idiom == 'length':
+        s.domain = pyPRISM.Domain(length=max(n // 2, 2), dr=dr)
+        s.domain.length = n
+    else:
+        s.domain = pyPRISM.Domain(length=n, dr=dr)
     # the order of the user's assignment statements is independent of the order of the type list
     if cfg.get('diam_idiom') == 'sweep':
         # a size-ratio sweep on a re-used System: every diameter first gets a common value, then its own
@@ -150,6 +164,9 @@ def _build(cfg):
     for t in cfg.get('assign_order', T):
         s.density[t] = cfg['rho'][t]
         s.diameter[t] = cfg['diam'][t]
+    for key, val in (cfg.get('sigma_override') or {}).items():
+        a, b = key.split('-')
+        s.diameter.sigma[a, b] = val
     if cfg.get('assign') == 'group':
         # the way the tutorials fill the tables: one object assigned to ALL pairs at once, then the pairs that
         # differ are overridden one by one
